@@ -156,13 +156,17 @@ CHECKS["C13"] = dict(
     text="Theorem (frame property, by induction over the engine interpreter and case analysis of all 27 _calculate_reading models): "
          "calculate, calculate_index (+/- index), managed set_reading and every reading computation leave the candles' number, "
          "timestamps, OHLCV, clean values, tags and every dictionary entry not named in the indicator's own tree exactly as they were; "
-         "purge removes exactly the tree's entries. Tie: the Hexital model (two members, the operations aimed at one of them) run "
+         "purge removes exactly the tree's entries. Read half: the _calculate_reading of each of the 14 classes without helper series "
+         "depends only on OHLCV and the readings it names; non-interference theorem: for a top-level leaf B and any other indicators "
+         "whose tree names B neither reads nor owns, B's entries are identical along every paired history (same appends, B calculating "
+         "on both sides, the others doing anything within their frame on one side), and calculate() raises on one side iff on the other. "
+         "Tie: the Hexital model (two members, the operations aimed at one of them) run "
          "against hexital.Hexital on the same histories (check_hx). Falsifier: B alone vs with A in both orders, and purge/recalculate/"
          "remove of A at the end and in the middle of the stream, incl. targeted pairs (substring names, X / X_<suffix> names, helper "
          "families, BBANDS helpers) and members on one collapsing timeframe.",
-    note="The theorem shows A never writes B's entries; that B's computation does not read A's entries (input independence) is decided "
-         "by the falsifier. Axioms: none.",
-    technique="Coq proof (frame theorem over the engine) + vm_compute correspondence of the Hexital model + falsifier", design="5/C13")
+    note="Non-interference is proved for B without helper series (any A); for a composite B the read half is decided by correspondence "
+         "+ falsifier. Axioms: none.",
+    technique="Coq proof (frame theorem, reads-only theorem, simulation of the engine loop) + vm_compute correspondence of the Hexital model + falsifier", design="5/C13")
 CHECKS["C14"] = dict(
     text="Theorems: purge removes every entry of the indicator tree at any depth and nothing else (timestamps, OHLCV, other entries "
          "untouched); for leaf indicators with discharged obligations calculate() is idempotent, recalculate() reproduces the store "
